@@ -3,10 +3,14 @@
 (* C16 - a flush orders its statements so that immediately enforced        *)
 (* foreign keys accept them.                                               *)
 (*                                                                         *)
-(* Entities  P(id, cs = Set(C, cascade_delete=False))  and                 *)
-(*           C(id, p = Required(P)).                                       *)
-(* A child refers to exactly one parent, a parent can only be deleted when *)
-(* no child refers to it in the session's view: the references of every    *)
+(* Entities  P(id, cs = Set(C))  and  C(id, p = reference to P), in three   *)
+(* declarations (constant Mode):                                           *)
+(*   "refuse"  C.p Required, cascade_delete=False: a parent can only be    *)
+(*             deleted when no child refers to it in the session's view;   *)
+(*   "cascade" C.p Required, cascade_delete=True: its children go with it; *)
+(*   "unlink"  C.p Optional: its children stay without a parent (NULL is   *)
+(*             written as -1 here), and a child may be unlinked directly.  *)
+(* A child refers to at most one parent: the references of every           *)
 (* set of pending creations, updates and deletions form a forest, so they  *)
 (* can always be ordered (parents inserted before their children, children *)
 (* re-pointed or deleted before their old parents are deleted) and the     *)
@@ -18,18 +22,20 @@
 (***************************************************************************)
 EXTENDS Integers, FiniteSets, TLC
 
-CONSTANTS PIds, CIds, MaxLevel
+CONSTANTS PIds, CIds, MaxLevel, Mode
+ASSUME Mode \in {"refuse", "cascade", "unlink"}
 
-VARIABLES db, cur,    \* [P |-> SUBSET PIds, C |-> [CIds -> PIds \cup {0}]]   (0: the child does not exist)
+VARIABLES db, cur,    \* [P |-> SUBSET PIds, C |-> [CIds -> PIds \cup {0, -1}]]   (0: the child does not exist, -1: no parent)
           dead,       \* keys deleted in this session are not used again before the flush
           done, ev
 
 vars == <<db, cur, dead, done, ev>>
 Ev(op, x, y, out) == [op |-> op, x |-> x, y |-> y, out |-> out]
 
-WellFormed(s) == \A c \in CIds : s.C[c] # 0 => s.C[c] \in s.P
+WellFormed(s) == \A c \in CIds : s.C[c] \notin {0, -1} => s.C[c] \in s.P
+NoParent == IF Mode = "unlink" THEN {-1} ELSE {}
 
-Seeds == {s \in [P : SUBSET PIds, C : [CIds -> PIds \cup {0}]] : WellFormed(s) /\ 1 \in s.P}
+Seeds == {s \in [P : SUBSET PIds, C : [CIds -> PIds \cup {0} \cup NoParent]] : WellFormed(s) /\ 1 \in s.P}
 
 Init == db \in Seeds /\ cur = db /\ dead = {} /\ done = FALSE /\ ev = Ev("Init", 0, 0, "ok")
 
@@ -37,12 +43,14 @@ Kids(s, p) == {c \in CIds : s.C[c] = p}
 
 CreateP(p) == /\ ~done /\ p \notin cur.P /\ <<"P", p>> \notin dead
               /\ cur' = [cur EXCEPT !.P = @ \cup {p}] /\ ev' = Ev("CreateP", p, 0, "ok") /\ UNCHANGED <<db, dead, done>>
-DeleteP(p) == /\ ~done /\ p \in cur.P /\ Kids(cur, p) = {}
-              /\ cur' = [cur EXCEPT !.P = @ \ {p}] /\ dead' = dead \cup {<<"P", p>>}
+DeleteP(p) == /\ ~done /\ p \in cur.P /\ (Mode = "refuse" => Kids(cur, p) = {})
+              /\ cur' = [cur EXCEPT !.P = @ \ {p},
+                                    !.C = [c \in CIds |-> IF cur.C[c] # p THEN cur.C[c] ELSE IF Mode = "cascade" THEN 0 ELSE -1]]
+              /\ dead' = dead \cup {<<"P", p>>} \cup (IF Mode = "cascade" THEN {<<"C", c>> : c \in Kids(cur, p)} ELSE {})
               /\ ev' = Ev("DeleteP", p, 0, "ok") /\ UNCHANGED <<db, done>>
 CreateC(c, p) == /\ ~done /\ cur.C[c] = 0 /\ <<"C", c>> \notin dead /\ p \in cur.P
                  /\ cur' = [cur EXCEPT !.C[c] = p] /\ ev' = Ev("CreateC", c, p, "ok") /\ UNCHANGED <<db, dead, done>>
-Move(c, p) == /\ ~done /\ cur.C[c] # 0 /\ p \in cur.P /\ p # cur.C[c]
+Move(c, p) == /\ ~done /\ cur.C[c] # 0 /\ p \in cur.P \cup NoParent /\ p # cur.C[c]
               /\ cur' = [cur EXCEPT !.C[c] = p] /\ ev' = Ev("Move", c, p, "ok") /\ UNCHANGED <<db, dead, done>>
 DeleteC(c) == /\ ~done /\ cur.C[c] # 0
               /\ cur' = [cur EXCEPT !.C[c] = 0] /\ dead' = dead \cup {<<"C", c>>}
@@ -53,7 +61,7 @@ Commit == /\ ~done /\ done' = TRUE /\ db' = cur /\ ev' = Ev("Commit", 0, 0, "ok"
 
 Next == \/ Commit
         \/ \E p \in PIds : CreateP(p) \/ DeleteP(p)
-        \/ \E c \in CIds : DeleteC(c) \/ \E p \in PIds : CreateC(c, p) \/ Move(c, p)
+        \/ \E c \in CIds : DeleteC(c) \/ \E p \in PIds \cup {-1} : CreateC(c, p) \/ Move(c, p)
 
 Bounded == TLCGet("level") <= MaxLevel
 ViewWellFormed == WellFormed(cur) /\ WellFormed(db)
